@@ -121,34 +121,36 @@ class Note(object):
         if dynamics is None:
             dynamics = {}
 
-        if velocity is not None:
-            self.set_velocity(velocity)
-        elif "velocity" in dynamics:
-            self.set_velocity(dynamics["velocity"])
-
-        if channel is not None:
-            self.set_channel(channel)
+        # Work out the whole request first: a request that is rejected must
+        # leave the note as it was.
+        if velocity is None and "velocity" in dynamics:
+            velocity = dynamics["velocity"]
         if "channel" in dynamics:
-            self.set_channel(dynamics["channel"])
+            channel = dynamics["channel"]
+        if velocity is not None and not 0 <= velocity < 128:
+            raise ValueError("MIDI velocity must be 0-127")
+        if channel is not None and not 0 <= channel < 16:
+            raise ValueError("MIDI channel must be 0-15")
 
         dash_index = name.split("-")
         if len(dash_index) == 1:
-            if notes.is_valid_note(name):
-                self.name = name
-                self.octave = octave
-                return self
-            else:
-                raise NoteFormatError("Invalid note representation: %r" % name)
+            note = name
         elif len(dash_index) == 2:
             note, octave = dash_index
-            if notes.is_valid_note(note):
-                self.name = note
-                self.octave = int(octave)
-                return self
-            else:
-                raise NoteFormatError("Invalid note representation: %r" % name)
         else:
             raise NoteFormatError("Invalid note representation: %r" % name)
+        if not notes.is_valid_note(note):
+            raise NoteFormatError("Invalid note representation: %r" % name)
+        if len(dash_index) == 2:
+            octave = int(octave)
+
+        self.name = note
+        self.octave = octave
+        if velocity is not None:
+            self.set_velocity(velocity)
+        if channel is not None:
+            self.set_channel(channel)
+        return self
 
     def empty(self):
         """Remove the data in the instance."""
